@@ -265,6 +265,10 @@ pub fn posix_special() -> Vec<String> {
         "XXX0YYY-2,J100/0,J100/2:30".to_string(),
         "XXX0YYY2,J100/0,J100/-1:30".to_string(),
         "AAA-5BBB-8,M6.2.3/1,M6.2.3/5".to_string(),
+        // a DST period of zero length: start and end are the same instant
+        // (01:00 GMT = 02:00 BST), so the zone never leaves standard time
+        "GMT0BST,M3.5.0/1,M3.5.0/2".to_string(),
+        "XXX3:30YYY3,J100/2,J100/2:30".to_string(),
     ]
 }
 
@@ -287,6 +291,13 @@ pub fn posix_every_year_level(level: u8) -> Vec<String> {
         "DDD,M2.5.3/167,M9.1.1/-167",
         "DDD,M12.5.6/22,M6.1.1",
         "DDD,J1/3,J182",
+        // rule dates on the last day of February whose time (minus the offset)
+        // carries into the next day: Feb 28 -> Mar 1 in common years, Feb 29 in
+        // leap years (the date arithmetic behind the rule has its own
+        // next-day routine)
+        "DDD,J59/22,J300",
+        "DDD,58/23:30,J300/1",
+        "DDD,M10.3.6/24,M2.5.6/24",
     ];
     let mut v = vec![];
     if level == 0 {
